@@ -17,6 +17,7 @@ func init() {
 	verifRegister("VerifC14_KKeys", VerifC14_KKeys)
 	verifRegister("VerifC14_KWhen", VerifC14_KWhen)
 	verifRegister("VerifC14_KTruthy", VerifC14_KTruthy)
+	verifRegister("VerifC14_KAny", VerifC14_KAny)
 }
 
 var c14Env *lisp.LEnv
@@ -47,6 +48,7 @@ func VerifC14_KMalformed_Setup() { c14Setup() }
 func VerifC14_KKeys_Setup()      { c14Setup() }
 func VerifC14_KWhen_Setup()      { c14Setup() }
 func VerifC14_KTruthy_Setup()    { c14Setup() }
+func VerifC14_KAny_Setup()       { c14Setup() }
 
 func c14Load(env *lisp.LEnv, src string) *lisp.LVal { return env.LoadString("c14", src) }
 
@@ -204,6 +206,19 @@ func VerifC14_KNumMixedSmall_Setup() { c14Setup() }
 func VerifC14_KSign() {
 	env := c14Setup()
 	pos := vndBool("positive")
+	if vndBool("nan") {
+		// not-a-number is neither: both sign constraints refuse it
+		zero := 0.0
+		env.PutGlobal(lisp.Symbol("val"), lisp.Float(zero/zero))
+		cc := "(s:negative)"
+		if pos {
+			cc = "(s:positive)"
+		}
+		c14Load(env, "(set 'v (s:make-validator \"t\" s:number "+cc+"))")
+		vAssert(c14Verdict(c14Load(env, "(s:validate v val)")) == FailedConstraint, "NaN is not strictly greater (or less) than zero")
+		vCover("nan")
+		return
+	}
 	xf, xi, xfl := c14Number(env, "val", true)
 	c := "(s:negative)"
 	if pos {
@@ -520,5 +535,28 @@ func VerifC14_KTruthy() {
 		vAssert(gotT == FailedConstraint, "a value that is not truthy fails s:is-truthy: "+vals[vi]+" gave "+gotT)
 		vAssert(gotF == "ok", "and satisfies s:is-falsy")
 	}
+	vCover("end")
+}
+
+// Every constraint under the type "any" (no earlier constraint has looked at the value's type),
+// applied to a value of every kind: the verdict is success, wrong-type or failed-constraint —
+// never a host panic, never another condition.
+func VerifC14_KAny() {
+	env := c14Setup()
+	cons := []string{"(s:in 1 \"s\")", "(s:gt 1)", "(s:lte 1)", "(s:positive)", "(s:negative)", "(s:len 1)", "(s:of s:int)",
+		"(s:has-key \"a\" s:int)", "(s:may-have-key \"a\" s:int)", "(s:no-other-keys)", "(s:no-other-keys (s:has-key \"a\" s:int))",
+		"(s:when \"a\" (s:is-true) \"b\" s:int)", "(s:not (s:in 1))", "(s:is-true)", "(s:is-false)", "(s:is-truthy)", "(s:is-falsy)", "(s:regexp \"a\")",
+		"(s:not (s:no-other-keys))", "(s:of (s:has-key \"a\" s:int))"}
+	vals := []string{"x", "1.5", "\"s\"", "()", "true", "'sym", "(vector 1)", "(list 1)", "(sorted-map \"a\" 1)", "(sorted-map 'b 1)", "(to-bytes \"b\")", "(lambda (e) e)", "(vector (sorted-map))", "(sorted-map \"a\" (vector))"}
+	ci := vConcInt(vndChoice("constraint", len(cons)))
+	vi := vConcInt(vndChoice("value", len(vals)))
+	env.PutGlobal(lisp.Symbol("x"), lisp.Int(vndInt("x")))
+	r := c14Load(env, "(set 'av (s:make-validator \"t\" \"any\" "+cons[ci]+"))")
+	vAssert(r.Type != lisp.LError, "schema builds: "+c14Verdict(r))
+	got := c14Load(env, "(s:validate av "+vals[vi]+")")
+	vObserve("case", cons[ci]+" on "+vals[vi])
+	vAssert(!lisp.IsInternalPanic(got), "no constraint panics the host on any value: "+got.String())
+	v := c14Verdict(got)
+	vAssert(v == "ok" || v == WrongType || v == FailedConstraint, "the verdict is success, wrong-type or failed-constraint: "+v)
 	vCover("end")
 }
